@@ -195,6 +195,8 @@ func cmdGen(args []string) {
 		genCPM(r, out, *n, *per)
 	case "runirq":
 		genRunIRQ(r, out, *n)
+	case "alucube":
+		genALUCube(r, out, *per, *n)
 	default:
 		fmt.Fprintln(os.Stderr, "unknown gen kind", kind)
 		os.Exit(2)
@@ -415,5 +417,52 @@ func genBlock(r *rng, out *bufio.Writer, n int, full int) {
 		}
 		v.N = steps + r.n(2)
 		fmt.Fprintln(out, v.String())
+	}
+}
+
+// genALUCube: EXHAUSTIVE operand cubes for the 8-bit ALU on the real code (thorough tier of C02):
+// every A x every immediate operand x F in {00, FF} for ADD/ADC/SUB/SBC/AND/XOR/OR/CP n, and every A x every F for
+// the unary / accumulator instructions (INC A, DEC A, DAA, CPL, NEG, SCF, CCF, RLCA, RRCA, RLA, RRA and the CB
+// rotates/shifts on A).  `part`/`parts` split the cube so that it can be produced in slices.
+func genALUCube(r *rng, out *bufio.Writer, part, parts int) {
+	if parts < 1 {
+		parts = 1
+	}
+	base := r.randomState("cube")
+	base.Intr = nil
+	base.HALT = false
+	base.W[12] = 0x4000
+	base.W[11] = 0x8000
+	k := 0
+	emit := func(id string, a, f uint8, prog []uint8) {
+		k++
+		if k%parts != part%parts {
+			return
+		}
+		v := *base
+		v.ID = id
+		v.W[0] = uint16(a)<<8 | uint16(f)
+		v.Over = []Override{{0x4000, prog}}
+		fmt.Fprintln(out, v.String())
+	}
+	for y := 0; y < 8; y++ {
+		for a := 0; a < 256; a++ {
+			for n := 0; n < 256; n++ {
+				for _, f := range []uint8{0x00, 0xff} {
+					emit(fmt.Sprintf("alu-%d-%02x-%02x-%02x", y, a, n, f), uint8(a), f, []uint8{0xc6 | uint8(y)<<3, uint8(n)})
+				}
+			}
+		}
+	}
+	unary := [][]uint8{{0x3c}, {0x3d}, {0x27}, {0x2f}, {0xed, 0x44}, {0x37}, {0x3f}, {0x07}, {0x0f}, {0x17}, {0x1f}}
+	for y := 0; y < 8; y++ {
+		unary = append(unary, []uint8{0xcb, uint8(y)<<3 | 7})
+	}
+	for ui, u := range unary {
+		for a := 0; a < 256; a++ {
+			for f := 0; f < 256; f++ {
+				emit(fmt.Sprintf("una-%d-%02x-%02x", ui, a, f), uint8(a), uint8(f), u)
+			}
+		}
 	}
 }
